@@ -363,7 +363,7 @@ class AsyncFIXConnection:
                     if tm - self._message_last_time > self._heartbeat_period - 1:
                         if not self._test_req_id:
                             await self.send_test_req()
-                        self._message_last_time = tm
+                            self._message_last_time = tm
 
                 if (
                     self._message_last_time
@@ -376,6 +376,7 @@ class AsyncFIXConnection:
                 if (
                     self._test_req_id
                     and tm - self._test_req_id > self._heartbeat_period * 2
+                    and tm - self._message_last_time > self._heartbeat_period * 2
                 ):
                     # No sensible reply on TestRequest
                     self.log.debug("heartbeat_timer_task: test request timeout")
